@@ -68,6 +68,12 @@ int main(int argc, char **argv) {
         else if (a.rfind("areg=", 0) == 0) top->hex->u_processor->areg_q = val(5);
         else if (a.rfind("breg=", 0) == 0) top->hex->u_processor->breg_q = val(5);
         else if (a.rfind("oreg=", 0) == 0) top->hex->u_processor->oreg_q = val(5);
+        // Verilator's first eval() takes the "previous" clock/reset of each always_ff block from these module-local copies,
+        // which are part of the random power-on state: plant them to decide whether the time-1 edge is seen
+        else if (a.rfind("pclk=", 0) == 0) top->hex->u_processor->i_clk = val(5) & 1;
+        else if (a.rfind("mclk=", 0) == 0) top->hex->u_memory->i_clk = val(5) & 1;
+        else if (a.rfind("prst=", 0) == 0) top->hex->u_processor->i_rst = val(5) & 1;
+        else if (a.rfind("mrst=", 0) == 0) top->hex->u_memory->i_rst = val(5) & 1;
         else if (a.rfind("mem:", 0) == 0) {
           size_t eq = a.find('=');
           uint32_t w = strtoul(a.c_str() + 4, 0, 0);
